@@ -120,8 +120,9 @@ def as_matrix(x):
     return np.asarray(x.matrix).swapaxes(-1, -2)
 
 
-def compare(v, key, words, got, exp, exact_mask=None, what=""):
-    """got, exp: stacks (N, n, n).  Exact where exact_mask, else |d| <= TOL (1 + max|exp|)."""
+def compare(v, key, words, got, exp, exact_mask=None, what="", cond=None):
+    """got, exp: stacks (N, n, n).  Exact where exact_mask, else |d| <= TOL (1 + max|exp| + cond),
+    cond = magnitude of the intermediate products (forward error bound of a matrix product)."""
     got, exp = np.asarray(got), np.asarray(exp)
     if got.shape != exp.shape:
         v.append({"key": key + "/shape", "msg": "%s: shape %r, expected %r" % (what or key, got.shape, exp.shape)})
@@ -136,6 +137,8 @@ def compare(v, key, words, got, exp, exact_mask=None, what=""):
         return True
     d = np.abs(got - exp).reshape(len(words), -1).max(axis=1)
     scale = 1 + np.abs(exp).reshape(len(words), -1).max(axis=1)
+    if cond is not None:
+        scale = scale + np.asarray(cond)
     bad = ~(d <= TOL * scale)
     if exact_mask is not None:
         bad = bad | (np.asarray(exact_mask) & (d != 0))
@@ -237,6 +240,23 @@ def check_state(hist):
     Tinv = stack([tab[R.formal_inverse(w)] for w in words], n)
     index = {w: i for i, w in enumerate(words)}
     exact = np.array([all(gen_exact[x] for x in w) for w in words])
+    # conditioning of a word: max over splits w = uv of |rho(u)| |rho(v)| (times the matrix size); the
+    # rounding error of any bracketing of the product is bounded by a small multiple of eps * this
+    PI = np.zeros((len(words), L + 1), dtype=int)
+    SI = np.zeros((len(words), L + 1), dtype=int)
+    for i_, w_ in enumerate(words):
+        for k_ in range(L + 1):
+            kk = min(k_, len(w_))
+            PI[i_, k_], SI[i_, k_] = index[w_[:kk]], index[w_[kk:]]
+    INV = np.array([index[R.formal_inverse(w_)] for w_ in words])
+
+    def norms_of(E):
+        return np.abs(E).reshape(len(E), -1).max(axis=1) if E.size else np.zeros(len(E))
+
+    def cond_of(E):
+        nr = norms_of(E)
+        return E.shape[-1] * (nr[PI] * nr[SI]).max(axis=1)
+    nT, cT = norms_of(T), cond_of(T)
     cls = dtype_class(rep, assigned.values())
     allreal = T.dtype.kind != "c"
     no_int_generator = all(np.asarray(M).dtype.kind not in "iu" for M in rep.generators.values())
@@ -247,26 +267,27 @@ def check_state(hist):
         return {"v": v, "key": key, "ops": [], "t": ncalls, "o": "exc", "nt": True}
     ncalls += len(words)
     V = stack(vals, n)
-    compare(v, "eval/word-value", words, V, T, exact, "rep[w] vs left-to-right product")
+    compare(v, "eval/word-value", words, V, T, exact, "rep[w] vs left-to-right product", cond=cT)
     I = np.identity(n)
     if not np.array_equal(V[0], I):
         v.append({"key": "eval/empty-word", "msg": "rep[''] = %r" % (V[0].tolist(),)})
     # every split, on the library's own values
-    sw, lhs, rhs = [], [], []
+    sw, lhs, rhs, sc = [], [], [], []
     for w in words:
         for k in range(1, len(w)):
             sw.append(w)
             lhs.append(V[index[w]])
             rhs.append(V[index[w[:k]]] @ V[index[w[k:]]])
+            sc.append(cT[index[w]] + cT[index[w[:k]]] * nT[index[w[k:]]] + nT[index[w[:k]]] * cT[index[w[k:]]])
     if sw:
-        compare(v, "eval/split-law", sw, stack(lhs, n), stack(rhs, n), None, "rep[uv] vs rep[u] rep[v]")
+        compare(v, "eval/split-law", sw, stack(lhs, n), stack(rhs, n), None, "rep[uv] vs rep[u] rep[v]", cond=np.array(sc))
     # inverse letters and formal inverses
     prod = np.stack([V[index[R.formal_inverse(w)]] @ V[index[w]] for w in words])
-    compare(v, "eval/inverse", words, prod, np.broadcast_to(I, prod.shape), exact & np.array([exact[index[R.formal_inverse(w)]] for w in words]),
-            "rep[w^-1] rep[w] vs I")
+    compare(v, "eval/inverse", words, prod, np.broadcast_to(I, prod.shape), exact & exact[INV],
+            "rep[w^-1] rep[w] vs I", cond=n * (cT[INV] * nT + nT[INV] * cT + nT[INV] * nT))
     # free reduction
     red = [R.free_reduce(w) for w in words]
-    compare(v, "eval/free-reduction", words, V, np.stack([V[index[r]] for r in red]), exact, "rep[w] vs rep[free_reduce(w)]")
+    compare(v, "eval/free-reduction", words, V, np.stack([V[index[r]] for r in red]), exact, "rep[w] vs rep[free_reduce(w)]", cond=cT)
     # elements() stacks rep[w]
     if simple:
         el = guard(v, "elements", lambda: rep.elements(["".join(w) for w in words]))
@@ -300,7 +321,8 @@ def check_state(hist):
         k = "derived/%s" % name + ("/" + cls if cls_in_key else "")
         if list(d.generators.keys()) != letters and sorted(d.generators.keys()) != sorted(letters):
             v.append({"key": k + "/names", "msg": "%s has generators %r, original %r" % (name, list(d.generators), letters)})
-        compare(v, k, ws, stack(got, m), exp, exact if exact_ok else None, "%s[w] vs functor(rho(w))" % name)
+        compare(v, k, ws, stack(got, m), exp, exact if exact_ok else None, "%s[w] vs functor(rho(w))" % name,
+                cond=cond_of(exp) if wordsel is None and len(exp) == len(words) else None)
         return d
 
     cp = derived("copy", lambda: Representation(rep), T, True)
@@ -385,7 +407,7 @@ def check_state(hist):
             incl, proj, S = r
             KK = R.kron_stack(T, T)
             compare(v, "derived/symmetric_square/inclusion-intertwines", words, incl @ S, KK @ incl, None,
-                    "incl Sym2(w) vs (rho(w) x rho(w)) incl")
+                    "incl Sym2(w) vs (rho(w) x rho(w)) incl", cond=cond_of(KK))
             if not np.array_equal(proj @ incl, np.identity(n * (n + 1) // 2)):
                 v.append({"key": "derived/symmetric_square/projection-inclusion", "msg": "symmetric_projection @ symmetric_inclusion != I"})
 
@@ -416,8 +438,11 @@ def check_state(hist):
         if got is None:
             return
         ncalls += len(ws)
-        exp = np.stack([model.value(R.substitute(w, tabw)) for w in ws])
-        compare(v, "derived/%s" % name, ws, stack(got, n), exp, None, "%s[w] vs rho(substituted w)" % name)
+        subs = [R.substitute(w, tabw) for w in ws]
+        exp = np.stack([model.value(u) for u in subs])
+        gmax = {g: max(1.0, float(np.abs(M).max())) for g, M in model.gens.items()}
+        crude = np.array([n * float(np.prod([gmax[x] for x in u])) if u else 0.0 for u in subs])
+        compare(v, "derived/%s" % name, ws, stack(got, n), exp, None, "%s[w] vs rho(substituted w)" % name, cond=crude)
 
     if simple:
         sw_s = ["".join(w) for w in subwords]
@@ -464,7 +489,7 @@ def check_state(hist):
                 ["".join(w) for w in words] if simple else [list(w) for w in words])))
             if got is not None:
                 compare(v, "derived/HyperbolicRepresentation/form", words, got.swapaxes(-1, -2) @ J @ got,
-                        np.broadcast_to(J, got.shape), None, "isometries(w)^T J isometries(w) vs J")
+                        np.broadcast_to(J, got.shape), None, "isometries(w)^T J isometries(w) vs J", cond=n * nT * (nT + 2 * cT))
 
     # ---- Fox calculus (one-character names: fox_word_derivative works on strings)
     if simple and cfg.get("fox", True):
@@ -489,8 +514,11 @@ def check_state(hist):
                 rhs = np.zeros(Tw.shape, dtype=np.result_type(D, Tw))
                 for k, g in enumerate(lows):
                     rhs = rhs + D[:, :, k * n:(k + 1) * n] @ (model.gens[g] - R.identity(n))
+                fi = np.array([index[w] for w in fw])
+                gm = 1 + max(float(np.abs(model.gens[g]).max()) for g in lows)
+                fcond = n * L * gm * ((nT[PI[fi]]).max(axis=1) + (cT[PI[fi]]).max(axis=1))
                 compare(v, "fox/fundamental-formula", fw, rhs, Tw - R.identity(n), ex,
-                        "sum_g D_g(w)(rho(g)-I) vs rho(w)-I")
+                        "sum_g D_g(w)(rho(g)-I) vs rho(w)-I", cond=fcond)
                 # each block against the oracle's Fox derivative
                 for k, g in enumerate(lows):
                     expb = []
@@ -500,7 +528,7 @@ def check_state(hist):
                             acc = acc + c * tab[u]
                         expb.append(acc)
                     compare(v, "fox/derivative-block", fw, D[:, :, k * n:(k + 1) * n], np.stack(expb), ex,
-                            "block d/d%s of differential(w) vs rho(Fox derivative)" % g)
+                            "block d/d%s of differential(w) vs rho(Fox derivative)" % g, cond=fcond)
         e0 = guard(v, "differential(empty-word)", lambda: np.asarray(rep.differential("")))
         if e0 is not None and not (e0.shape == (n, n * len(lows)) and not np.any(e0 != 0)):
             v.append({"key": "fox/empty-word", "msg": "differential('') = %r, expected zeros" % (e0.tolist(),)})
@@ -758,8 +786,9 @@ def run(ctx):
                "(fox_word_derivative / formal_inverse operate on strings)")
     ctx.assume("cocycle_matrix @ coboundary_matrix = 0 only for representations whose relations hold in the oracle (residual <= 1e-9)")
     ctx.tolerances["word values / derived representations"] = (
-        "|got-exp| <= 1e-9 (1 + max|exp|) per matrix: alphabets have condition number < 60 and words have length <= 6, "
-        "measured error <= 1e-12; exact (==) for words all of whose letters are stored exactly and are integer / "
+        "|got-exp| <= 1e-9 (1 + max|exp| + k max_{w=uv} |F(u)| |F(v)|) per k x k matrix (forward error bound of a matrix "
+        "product with machine epsilon replaced by 1e-9, so that cancelling words like aaaAAA are judged against the size of "
+        "their intermediate products); exact (==) for words all of whose letters are stored exactly and are integer / "
         "Gaussian-integer matrices (products of integers < 2^53 are exact in float64)")
     ctx.tolerances["cocycle @ coboundary"] = "1e-8 (1 + max|cocycle| max|coboundary|); exact zero on integer representations"
 
